@@ -324,6 +324,11 @@ def encoder_corpus(pid):
         cases.append((f"tn vecnat16 {n}", ("vec", "nat16"), [i & 0xffff for i in range(n)]))
     for n in (0, 1, 200, 16384):
         cases.append((f"tn vecnat {n}", ("vec", "nat"), list(range(n))))
+    cases.append(("tn vecbox64 4", ("vec", "nat64"), [0, 1, 2, 3]))
+    cases.append(("tn vecrc64 4", ("vec", "nat64"), [0, 1, 2, 3]))
+    cases.append(("tn vecbox16 4", ("vec", "nat16"), [0, 1, 2, 3]))
+    cases.append(("tn vecref64 3", ("vec", "int64"), [0, 2 ** 64 - 1, 2 ** 64 - 2]))
+    cases.append(("tn arr32 3", ("vec", "nat32"), [5, 6, 7]))
     for n in (1, 2, 64, 65, 130):
         cases.append((f"tt rec {n}", ("record", [(3 * i, "nat8") for i in range(n)]), [(3 * i, i & 0xff) for i in range(n)]))
         cases.append((f"tt var {n}", ("variant", [(2 * i, "null") for i in range(n)]), ("variant", 2 * (n - 1), None)))
@@ -363,7 +368,7 @@ def encoder_corpus(pid):
             "samples": [],
             "bounded_standins": [{"functions": ["ser.rs TypeSerialize::build_type/serialize", "composite value serializers", "IDLValue serialisation"],
                                   "bound": "opt/vec chains of depth 1..129, text/blob/vec nat16 of length 0..16512 (typed-untyped and native paths), "
-                                           "vec nat up to 16384, records/variants with 1..130 fields",
+                                           "vec nat up to 16384, vectors of Box/Rc/& wrappers of fixed-width primitives, records/variants with 1..130 fields",
                                   "vectors": len(cases), "disagreements": len(failures), "labelled": "bounded, NOT proved",
                                   "wall_s": round(time.time() - t0, 1)}]}
 
